@@ -485,7 +485,10 @@ func c02Generate(r *rand.Rand, kind c02Kind, blank bool) *c02Layout {
 			variant := r.Intn(64)
 			el := kind.elem(tag, inner, variant)
 			trail := r.Intn(2) == 0
-			if trail {
+			if trail && variant/9%3 == 0 {
+				// two trailing comments on the element's line: a block comment and a line comment
+				el[len(el)-1] += " /* U " + tag + " */ // T " + tag
+			} else if trail {
 				el[len(el)-1] += " // T " + tag
 			}
 			lines = append(lines, el...)
